@@ -286,5 +286,26 @@ theorem trichotomy (s : Style) (a b m : Int) (hm : 0 ≤ m) :
     · right; right; simp [ltS, gtS, Gen.lt, Gen.gt, Gen.ne, hE, x, y, h1, h2]
   · right; left; simp [ltS, gtS, Gen.lt, Gen.gt, Gen.ne, hE]
 
+/-- in the rounding arithmetic: an argument that is an integer (`T(i)` is exactly the argument and `I(val) = i`) is a
+    fixed point of `round` and `trunc` in every style — for every magnitude, also where `i+1` is not a number of the
+    format (the repaired `T(lower+1)` artefact of `trunc`) -/
+theorem round_trunc_int (s : Style) (rs : RStyle) (n i m : Int) (hm : 0 ≤ m)
+    (hT : ((i : Int) : FP f) = .fin n) (hI : FP.trunc (.fin n : FP f) = i) :
+    DV.C17.round s rs FP.trunc (.fin n : FP f) (.fin m) = i ∧ DV.C17.trunc s false rs FP.trunc (.fin n : FP f) (.fin m) = i := by
+  have hrefl := eqS_refl (f := f) s n m hm
+  have hnlt : ¬ ((FP.fin n : FP f) < .fin n) := by
+    show ¬ lt (.fin n) (.fin n) = true; simp [lt]
+  have hrd : roundDown s FP.trunc (.fin n : FP f) (.fin m) = i := by
+    simp [roundDown, hI, hT, hrefl]
+  have hru : roundUp s FP.trunc (.fin n : FP f) (.fin m) = i := by
+    simp [roundUp, hI, hT, hrefl]
+  have htd : truncDown s false FP.trunc (.fin n : FP f) (.fin m) = i := by
+    simp [truncDown, sameVal, hI, hT, hnlt]
+  have htu : truncUp s false FP.trunc (.fin n : FP f) (.fin m) = i := by
+    simp [truncUp, htd, neS, Gen.ne, hT, hrefl]
+  constructor
+  · cases rs <;> simp only [DV.C17.round, hrd, hru] <;> (try split) <;> rfl
+  · cases rs <;> simp only [DV.C17.trunc, htd, htu] <;> (try split) <;> rfl
+
 end FP
 end DV.C17
